@@ -40,6 +40,37 @@ def add_collision_pattern(root, rng):
     b.add(Field("items", Arr(Base("byte"), 3), d))
 
 
+def add_alias_array_pattern(root, rng):
+    """Alias `<N>` of an array and alias `Array<N>` of a base type: the array helper of the first and the alias helper of the
+    second must not share a name."""
+    n = "Zebra" + rng.choice(["Finch", "Heron", "Stork"])
+    root.add(Alias(n, Arr(Base("uint", rng.choice([3, 8])), 2)))
+    root.add(Alias("Array" + n, Base("uint", rng.choice([5, 8]))))
+    m = root.add(Message("Uses" + n))
+    m.add(Field("one", Ref(root.items[-3]), 1))
+    m.add(Field("two", Ref(root.items[-2]), 2))
+
+
+def add_same_proto_name_imports(root, rng):
+    """Two different files that declare the same proto name, imported under different `as` names."""
+    from vlib.model import Import
+    made = []
+    for k, tag in enumerate(("a", "b")):
+        g = File("twinproto", basename=f"twinproto_{tag}")
+        e = g.add(Enum(f"Twin{tag.upper()}Kind", 3, [(f"TWIN_{tag.upper()}_KIND_X", 0), (f"TWIN_{tag.upper()}_KIND_Y", 5)]))
+        mm = g.add(Message(f"Twin{tag.upper()}Box"))
+        mm.add(Field("k", Ref(e), 1))
+        mm.add(Field("n", Base("uint", 9 + k), 2))
+        imp = Import(g, f"tw{tag}")
+        imp.parent = root
+        pos = max([i + 1 for i, it in enumerate(root.items) if isinstance(it, Import)] or [0])
+        root.items.insert(pos, imp)
+        made.append(mm)
+    m = root.add(Message("TwinUser"))
+    m.add(Field("a", Ref(made[0]), 1))
+    m.add(Field("b", Ref(made[1]), 2))
+
+
 def has_empty_enum_field(t, seen=None):
     t = strip_alias(t)
     if isinstance(t, Arr):
@@ -134,6 +165,12 @@ def worker(ctx):
         root = gen.gen_schema(rng, cfg_for(rng, case_id))
         if case_id % 5 == 0:
             add_collision_pattern(root, rng)
+        if case_id % 7 == 1:
+            add_alias_array_pattern(root, rng)
+            res.count("feature:alias_named_Array_of_alias")
+        if case_id % 7 == 2:
+            add_same_proto_name_imports(root, rng)
+            res.count("feature:two_imports_with_the_same_proto_name")
         top = ctx.casedir(case_id)
         wit = {"case": case_id, "shard": ctx.shard}
         try:
